@@ -45,7 +45,7 @@ FIVE = [dict(M0=0.5, M1=0.45, M2=0.15, M3=0.05, M4=0.0, R12=0.25, R23=0.5),
 
 
 def bounds(tier):
-    return {"ms_sensitivities(M,M2)": MS_SENS if tier != "quick" else MS_SENS[:4], "R_goal": R_GOALS,
+    return {"ms_sensitivities(M,M2)": MS_SENS if tier != "quick" else MS_SENS[:5], "R_goal": R_GOALS,
             "five_segment_sets": len(FIVE), "cycles_per_call": "1 (formula, compose), 2 (monotone, accessor)"}
 
 
@@ -105,7 +105,7 @@ def haigh_walk(ctx, a, m, sectors, R_goal):
 def cases(tier):
     q = tier == "quick"
     out = []
-    sens = MS_SENS[:4] if q else MS_SENS
+    sens = MS_SENS[:5] if q else MS_SENS
     for (M, M2) in sens:
         for Rg in R_GOALS:
             out.append({"kind": "goodman", "M": M, "M2": M2, "Rg": Rg, "_weight": 3})
